@@ -149,7 +149,76 @@ MUTANTS = [
       "    def get_filenode_cap(self):\n        return self._filenode_uri\n\n    def is_mutable(self):\n        return False\n\n    def is_readonly(self):\n        return True\n\n    def get_readonly(self):\n        return self\n\n\n@implementer(IVerifierURI)\nclass ImmutableDirectoryURIVerifier",
       "    def get_filenode_cap(self):\n        return self._filenode_uri\n\n    def __eq__(self, them):\n        return isinstance(them, DirectoryURIVerifier) and self._filenode_uri == them._filenode_uri\n\n    def is_mutable(self):\n        return False\n\n    def is_readonly(self):\n        return True\n\n    def get_readonly(self):\n        return self\n\n\n@implementer(IVerifierURI)\nclass ImmutableDirectoryURIVerifier",
       "C21.7"),
+    # ---- gap review (mutation-sweep survivors)
+    M("eq-isinstance-negated", U,
+      "        if isinstance(them, _BaseURI):\n            return self.to_string() == them.to_string()",
+      "        if not isinstance(them, _BaseURI):\n            return self.to_string() == them.to_string()", "C21.7"),
+    M("eq-isinstance-args-swapped", U,
+      "        if isinstance(them, _BaseURI):\n            return self.to_string() == them.to_string()",
+      "        if isinstance(_BaseURI, them):\n            return self.to_string() == them.to_string()", "C21.7"),
+    M("eq-same-class-only", U,
+      "        if isinstance(them, _BaseURI):\n            return self.to_string() == them.to_string()",
+      "        if isinstance(them, _BaseURI):\n            return self is them", "C21.7"),
+    M("stats-unknown-test-negated", S, "        if isinstance(node, UnknownNode):", "        if not isinstance(node, UnknownNode):", "C21.6"),
+    M("stats-directory-test-negated", S, "        elif IDirectoryNode.providedBy(node):", "        elif not IDirectoryNode.providedBy(node):", "C21.6"),
+    M("stats-mutable-test-negated", S, "        elif IMutableFileNode.providedBy(node):", "        elif not IMutableFileNode.providedBy(node):", "C21.6"),
+    M("stats-immutable-test-negated", S, "        elif IImmutableFileNode.providedBy(node): # CHK and LIT",
+      "        elif not IImmutableFileNode.providedBy(node):", "C21.6"),
+    M("stats-literal-test-negated", S, "            if isinstance(theuri, LiteralFileURI):", "            if not isinstance(theuri, LiteralFileURI):", "C21.6"),
+    M("stats-literal-test-on-node-cap-string", S, "            if isinstance(theuri, LiteralFileURI):",
+      "            if isinstance(node.get_uri(), LiteralFileURI):", "C21.6"),
+    M("stats-immutable-size-dropped", S, "                self.add(\"size-immutable-files\", size)\n", "", "C21.6"),
+    M("stats-literal-size-dropped", S, "                self.add(\"size-literal-files\", size)\n", "", "C21.6"),
+    M("stats-histogram-dropped", S, "            self.histogram(\"size-files-histogram\", size)\n", "", "C21.6"),
+    M("stats-size-of-origin", S, "            size = node.get_size()\n", "            size = self.origin.get_size()\n", "C21.6"),
+    M("manifest-si-test-negated", F, "        if si:\n            self.storage_index_strings.add", "        if not si:\n            self.storage_index_strings.add", "C21.5"),
+    M("manifest-si-not-recorded", F, "        if si:\n            self.storage_index_strings.add(base32.b2a(si))\n", "", "C21.5"),
+    M("manifest-verifycap-test-negated", F, "        if v:\n            self.verifycaps.add", "        if not v:\n            self.verifycaps.add", "C21.5"),
+    M("manifest-verifycap-not-recorded", F, "            self.verifycaps.add(v.to_string())\n", "            pass\n", "C21.5"),
+    M("manifest-verifycap-of-origin", F, "        v = node.get_verify_cap()\n        if v:\n            self.verifycaps.add(v.to_string())",
+      "        v = node.get_verify_cap()\n        if v:\n            self.verifycaps.add(self.origin.get_verify_cap().to_string())", "C21.5"),
+    M("deepcheck-returns-nothing", F,
+      "        d.addCallback(lambda ignored: self._stats.add_node(node, childpath))\n        return d\n",
+      "        d.addCallback(lambda ignored: self._stats.add_node(node, childpath))\n        return None\n", "C21.5"),
+    M("deepcheck-return-dropped", F,
+      "        d.addCallback(lambda ignored: self._stats.add_node(node, childpath))\n        return d\n",
+      "        d.addCallback(lambda ignored: self._stats.add_node(node, childpath))\n", "C21.5"),
+    M("walker-finish-dropped", F, "        d.addCallback(lambda ignored: walker.finish())\n", "", "C21.2"),
+    M("walker-finish-after-monitor-finish", F,
+      "        d.addCallback(lambda ignored: walker.finish())\n        d.addBoth(monitor.finish)\n",
+      "        d.addBoth(monitor.finish)\n        d.addCallback(lambda ignored: walker.finish())\n", "C21.2"),
+    M("deep-traverse-returns-nothing", F, "        d.addErrback(lambda f: None)\n\n        return monitor\n",
+      "        d.addErrback(lambda f: None)\n\n        return None\n", "C21.2"),
+    M("named-dir-callback-not-returned", F, DIR_CB_OLD,
+      "            def _visit_dir(ignored, child=child, childpath=childpath):\n"
+      "                self._deep_traverse_dirnode(child, childpath, walker, monitor, found)\n"
+      "            d.addCallback(_visit_dir)\n", "C21.3"),
     # ---- benign
+    M("benign-eq-early-return", U,
+      "        if isinstance(them, _BaseURI):\n            return self.to_string() == them.to_string()\n        else:\n            return False\n\n    def __ne__",
+      "        if not isinstance(them, _BaseURI):\n            return NotImplemented\n        mine = self.to_string()\n        return them.to_string() == mine\n\n    def __ne__", None),
+    M("benign-eq-and-form", U,
+      "        if isinstance(them, _BaseURI):\n            return self.to_string() == them.to_string()\n        else:\n            return False\n\n    def __ne__",
+      "        return isinstance(them, _BaseURI) and self.to_string() == them.to_string()\n\n    def __ne__", None),
+    M("benign-stats-files-else-branch", S,
+      "        elif IMutableFileNode.providedBy(node):\n            self.add(\"count-files\")\n            self.add(\"count-mutable-files\")",
+      "        elif not IMutableFileNode.providedBy(node) and not IImmutableFileNode.providedBy(node):\n            return\n"
+      "        elif IMutableFileNode.providedBy(node):\n            self.add(\"count-mutable-files\")\n            self.add(\"count-files\")", None),
+    M("benign-stats-cap-local", S,
+      "            theuri = from_string(node.get_uri())\n            if isinstance(theuri, LiteralFileURI):\n                self.add(\"count-literal-files\")\n                self.add(\"size-literal-files\", size)",
+      "            cap = node.get_uri()\n            is_lit = isinstance(from_string(cap), LiteralFileURI)\n            if is_lit:\n                self.add(\"size-literal-files\", node.get_size())\n                self.add(\"count-literal-files\")", None),
+    M("benign-manifest-sets-none-tests", F,
+      "        si = node.get_storage_index()\n        if si:\n            self.storage_index_strings.add(base32.b2a(si))\n        v = node.get_verify_cap()\n        if v:\n            self.verifycaps.add(v.to_string())\n",
+      "        v = node.get_verify_cap()\n        if v is not None:\n            self.verifycaps.add(v.to_string())\n        if node.get_storage_index() is None:\n            pass\n        else:\n            self.storage_index_strings.add(base32.b2a(node.get_storage_index()))\n", None),
+    M("benign-deepcheck-return-chained", F,
+      "        d.addCallback(lambda ignored: self._stats.add_node(node, childpath))\n        return d\n",
+      "        return d.addCallback(lambda ignored: self._stats.add_node(node, childpath))\n", None),
+    M("benign-finish-named-callback", F, "        d.addCallback(lambda ignored: walker.finish())\n        d.addBoth(monitor.finish)\n",
+      "        d.addCallback(lambda ignored: walker.finish())\n        d.addCallbacks(monitor.finish, monitor.finish)\n", None),
+    M("benign-named-dir-callback", F, DIR_CB_OLD,
+      "            def _visit_dir(ignored, child=child, childpath=childpath):\n"
+      "                return self._deep_traverse_dirnode(child, childpath, walker, monitor, found)\n"
+      "            d.addCallback(_visit_dir)\n", None),
     M("benign-classify-if-else", F, CLASSIFY_OLD, CLASSIFY_BENIGN, None),
     M("benign-nested-dedup-test", F,
       "            if (verifier is not None) and (verifier in found):\n                continue\n",
